@@ -130,6 +130,10 @@ func ensureCanUseORConstraint(node schema.Node) {
 	if ssl.HasUserTypes() {
 		panic(errors.ErrInvalidChildNodeTogetherWithOrRule)
 	}
+
+	// The "or" lists JSON types only (@foo // {or: ["integer", "string"]}). The
+	// shortcut is a type reference, and the "or" would silently replace it.
+	panic(errors.ErrCannotSpecifyOtherRulesWithTypeReference)
 }
 
 func checkBranchNodeWithOrConstraint(schemaNode schema.Node, jsonNode schema.BranchNode) {
